@@ -37,6 +37,7 @@ func onlySignalsEOF(f *ssa.Function) bool {
 func checkC05(c *Ctx) {
 	c.explainf("C05 decides: (ERR) in every function of the interpreter package (lexer, parser, infix parser, generator, VM, call machinery, builtins, converters) every error returned by a repository function is tested, returned or passed on, and on the non-nil branch the function does not return a nil error; (CAP) in every function that captures the VM control state each return of a possibly non-nil error after the capture is preceded on every path by a restore, and every caller of CallFunction has such a bracket or a named enclosing one; (TRUNC) every error return of the call dispatcher after argument preparation is preceded by truncating the data stack to its starting size; (MAIN) the compiled code is appended to the main function only on the success branch of compilation and the run loop's error path parks the program counter at the end of the restored function; (RESET) every ParseTokens call in an entry function is dominated by a parser reset. It does not decide equivalence of later evaluations with a twin interpreter.")
 
+	c.checkDeclarationUndone("C05-UNDO")
 	// ---------------- C05-ERR
 	peek := c.fn("Lexer.PeekNextToken")
 	ppeek := c.fn("Parser.ParserPeekNextToken")
@@ -586,4 +587,82 @@ func (c *Ctx) isExecuteMethod(f *ssa.Function) bool {
 	}
 	it, ok := instr.Underlying().(*types.Interface)
 	return ok && types.Implements(f.Signature.Recv().Type(), it)
+}
+
+// checkDeclarationUndone: C05-UNDO. "Every definition completed before the
+// failure is intact." A builtin that enters a type into the package-level type
+// registry and can still fail afterwards (it evaluates the field expressions
+// after binding the name, so that a struct can refer to itself) has replaced
+// the previous definition of the name by the time it fails. It needs an undo:
+// a deferred function that puts the registry entry back (registers the
+// previous type again or deletes the name). The rule looks at every function
+// that registers a user type and can return an error after doing so.
+func (c *Ctx) checkDeclarationUndone(rule string) {
+	reg := c.mustFn(rule, "GoStructRegistryType.RegisterUserdef")
+	regVar := c.SZygo.Var("GoStructRegistry")
+	if reg == nil || regVar == nil {
+		return
+	}
+	n := 0
+	for _, f := range c.zygoFuncs() {
+		if f.Parent() != nil {
+			continue
+		}
+		idx := errResultIndex(f.Signature)
+		if idx < 0 {
+			continue
+		}
+		sites := callsOf(f, reg)
+		if len(sites) == 0 {
+			continue
+		}
+		// an error return reachable after a registration
+		var failAfter ssa.Instruction
+		for _, site := range sites {
+			for _, r := range returnsOf(f) {
+				if idx >= len(r.Results) || isNilConst(r.Results[idx]) {
+					continue
+				}
+				if r.Block() == site.Block() && instrIndex(r) > instrIndex(site.(ssa.Instruction)) || blockReaches(site.Block(), r.Block()) {
+					failAfter = r
+				}
+			}
+		}
+		if failAfter == nil {
+			continue
+		}
+		n++
+		undone := false
+		eachInstr(f, func(b *ssa.BasicBlock, i int, in ssa.Instruction) {
+			d, ok := in.(*ssa.Defer)
+			if !ok {
+				return
+			}
+			mc, ok := d.Call.Value.(*ssa.MakeClosure)
+			if !ok {
+				return
+			}
+			cl, ok := mc.Fn.(*ssa.Function)
+			if !ok {
+				return
+			}
+			eachInstr(cl, func(b2 *ssa.BasicBlock, j int, x ssa.Instruction) {
+				switch y := x.(type) {
+				case *ssa.Call:
+					if y.Call.StaticCallee() == reg {
+						undone = true
+					}
+					if bi, ok := y.Call.Value.(*ssa.Builtin); ok && bi.Name() == "delete" && len(y.Call.Args) > 0 && derivesFromGlobal(y.Call.Args[0], regVar, 0) {
+						undone = true
+					}
+				}
+			})
+		})
+		c.check(undone, rule, fnName(f), "registration undone when the declaration fails", failAfter.Pos(),
+			"a deferred function puts the previous registry entry back (or removes the name) unless the declaration completed",
+			"the function enters a type into the package-level registry and can return an error afterwards, with nothing that undoes the registration: a failed (struct Name [...]) leaves an empty definition under Name, so the previous definition is destroyed (constructors of existing code fail with 'has no field'), also for other interpreters of the process")
+	}
+	if n == 0 {
+		c.undecided(rule, "package", "fallible registrations", token.NoPos, "no function registers a user type and can fail afterwards (StructBuilder confirmed by reading)")
+	}
 }
